@@ -18,6 +18,14 @@ func main() {
 	switch os.Args[1] {
 	case "symx":
 		os.Exit(cmdSymx(os.Args[2:]))
+	case "corpus":
+		tier := "quick"
+		if len(os.Args) > 2 {
+			tier = os.Args[2]
+		}
+		for _, in := range Corpus(tier, 1) {
+			fmt.Println(in.ID, in.T.Expr())
+		}
 	case "run":
 		os.Exit(cmdRun(os.Args[2:]))
 	default:
